@@ -912,9 +912,13 @@ func oracle(c *config, o *observed, res *hx.Result) {
 			fail(cls("quick-replies", eqs(fc.QRs, eq)), fmt.Sprintf("%s gets quick replies %v, statement prescribes %v", who, fc.QRs, wq))
 		}
 		if o.ForLocale[i] != wl {
-			// ForContact only ever reports the language that supplied the text
-			explained := o.ForLocale[i] == etl
-			fail(cls("locale", explained), fmt.Sprintf("%s: locale language %q, statement prescribes %q", who, langCodes[o.ForLocale[i]], langCodes[wl]))
+			// ForContact only ever reports the language of the ENTRY that supplied the text (an entry filled with the
+			// base text reports its own language), and no language at all for a content without text
+			if wt[0] == "" && fc.Text == "" && o.ForLocale[i] == 0 {
+				fail("broadcast-for-contact:locale:text-less-content-reports-no-language", fmt.Sprintf("%s: content without text, locale has no language, statement prescribes %q (its attachments', then its quick replies')", who, langCodes[wl]))
+			} else {
+				fail(cls("locale", o.ForLocale[i] == etl), fmt.Sprintf("%s: locale language %q, statement prescribes %q", who, langCodes[o.ForLocale[i]], langCodes[wl]))
+			}
 		}
 	}
 	res.OracleChecks += 16
